@@ -6,7 +6,7 @@ from props.c01 import relabel_stream
 from props import c11
 
 PROP = "C10"
-MODULES = ["NeatviVerif.Props.C10"]
+MODULES = ["NeatviVerif.Props.C10", "NeatviVerif.Props.C10b"]
 MODE = "rx10"
 
 def streams(tier, seed, wd, wide=False):
